@@ -103,6 +103,14 @@ type MapOrder struct {
 	Sites   map[string]string `json:"sites,omitempty"`
 }
 
+type SiteRef struct {
+	File    string `json:"file"`
+	Line    int    `json:"line"`
+	Func    string `json:"func"`
+	Kind    string `json:"kind"`
+	Ordinal int    `json:"ordinal"` // index among the sites of the same kind in the same function
+}
+
 type Observed struct {
 	Oracle     string `json:"oracle"`
 	Task       int    `json:"task"`
@@ -136,6 +144,10 @@ type Plan struct {
 	Monitor      bool      `json:"monitor,omitempty"`
 	Uncontrolled []string  `json:"uncontrolled_sources,omitempty"`
 	Observed     *Observed `json:"observed,omitempty"`
+	// SiteTable describes, in a replay file, the instrumentation sites the plan
+	// refers to by id, so the ids can be re-mapped when the file is replayed
+	// against a tree whose sites are numbered differently.
+	SiteTable map[string]SiteRef `json:"siteTable,omitempty"`
 	// Refs carries, in a replay file, the reference records the verdict was
 	// taken against (key -> record) so a reader can see both sides.
 	Note string `json:"note,omitempty"`
